@@ -303,12 +303,17 @@ pub fn run(ctx: &Ctx, rep: &mut Report) {
                         }
                     }
                     let before = cr.clone();
-                    let err = HandlingError {
-                        code: code.map(|b| match MessageClass::from(b) {
-                            MessageClass::Response(rt) => rt,
-                            _ => ResponseType::UnKnown,
-                        }),
-                        message: msg.clone(),
+                    // (through the constructors, not a struct literal: the error type may grow fields)
+                    let err = match code.map(|b| match MessageClass::from(b) {
+                        MessageClass::Response(rt) => rt,
+                        _ => ResponseType::UnKnown,
+                    }) {
+                        Some(rt) => HandlingError::with_code(rt, msg.clone()),
+                        None => {
+                            let mut e = HandlingError::not_handled();
+                            e.message = msg.clone();
+                            e
+                        }
                     };
                     let applied = cr.apply_from_error(err);
                     (before, cr, applied)
